@@ -55,6 +55,9 @@ pub struct BatchCfg {
     pub components: Value,
     /// Extra args passed to the worker (variant tags etc.)
     pub extra_env: Vec<(String, String)>,
+    /// Harness build variants the runs are spread over (run i uses variants[i % len]);
+    /// empty = this binary for every run.
+    pub variants: Vec<String>,
     /// Whether a run whose process dies (abort, stack overflow, timeout) violates the property.
     /// (Not for C16: a crash that does not depend on the hash seed is C14's subject.)
     pub crashes_are_violations: bool,
@@ -119,15 +122,30 @@ struct WorkerOutcome {
     died_at: Option<(u64, String, String)>, // (index, how, last note)
 }
 
+/// The binary that executes run `index` (per-variant builds live next to this one).
+fn exe_for(cfg: &BatchCfg, index: u64) -> PathBuf {
+    if cfg.variants.is_empty() {
+        return self_exe();
+    }
+    let v = &cfg.variants[(index % cfg.variants.len() as u64) as usize];
+    let me = self_exe();
+    me.parent()
+        .map(|d| d.join(format!("wacsim-{v}")))
+        .unwrap_or(me)
+}
+
 fn spawn_worker(cfg: &BatchCfg, first: u64, count: u64, tape_out: Option<&Path>, keep_all: bool) -> std::io::Result<Child> {
-    let mut cmd = Command::new(self_exe());
+    let stride = cfg.variants.len().max(1) as u64;
+    let mut cmd = Command::new(exe_for(cfg, first));
     cmd.arg("worker")
         .arg(&cfg.prop)
         .arg(cfg.tier.as_str())
         .arg(cfg.seed.to_string())
         .arg(first.to_string())
         .arg(count.to_string())
-        .arg(cfg.sample_every.to_string());
+        .arg(cfg.sample_every.to_string())
+        .arg("--stride")
+        .arg(stride.to_string());
     if let Some(p) = tape_out {
         cmd.arg("--tape-out").arg(p);
     }
@@ -308,7 +326,7 @@ pub fn exec_tape(cfg: &BatchCfg, index: u64, tape: &[u64]) -> Result<Option<RunR
     let n = CTR.fetch_add(1, std::sync::atomic::Ordering::SeqCst);
     let tf = dir.join(format!("tape-{n}.json"));
     std::fs::write(&tf, serde_json::to_vec(tape).unwrap()).map_err(|e| e.to_string())?;
-    let mut cmd = Command::new(self_exe());
+    let mut cmd = Command::new(exe_for(cfg, index));
     cmd.arg("exec")
         .arg(&cfg.prop)
         .arg(cfg.tier.as_str())
@@ -500,7 +518,11 @@ pub fn run_batch(cfg: BatchCfg) -> BatchReport {
             let window_end = (i / crate::seams::RUN_WINDOW + 1) * crate::seams::RUN_WINDOW;
             n = n.min(window_end - i);
         }
-        chunks.push((i, n));
+        let stride = cfg.variants.len().max(1) as u64;
+        for r in 0..stride.min(n) {
+            // the worker executes first, first+stride, ... below the end of the range
+            chunks.push((i + r, n - r));
+        }
         i += n;
     }
     let total_chunks = chunks.len();
@@ -541,8 +563,9 @@ pub fn run_batch(cfg: BatchCfg) -> BatchReport {
                             None => break,
                             Some((idx, how, note)) => {
                                 a.crashes.push((idx, how, note));
-                                let done = idx + 1 - first;
-                                first = idx + 1;
+                                let stride = cfg.variants.len().max(1) as u64;
+                                let done = idx + stride - first;
+                                first = idx + stride;
                                 count -= done.min(count);
                             }
                         }
